@@ -5,6 +5,7 @@
    on every run of ./check, so the first four theorems are re-decided against the current tree. *)
 From Coq Require Import String List Bool.
 From Elys Require Import Base.Res Models.Authority Generated.Handlers Proofs.AuthorityProofs.
+From Elys Require Models.OwnerFlow Generated.OwnerFlow Proofs.OwnerFlowProofs.
 Import ListNotations.
 Open Scope string_scope.
 
@@ -53,13 +54,11 @@ Theorem C17_rejects_unauthorized : forall h, strictly_guarded h = true ->
 Proof. exact rejects_unauthorized. Qed.
 Print Assumptions C17_rejects_unauthorized.
 
-(* Owner-scoped messages. Full statement wanted: for EVERY message type that addresses an object owned
-   by an account (incl. the batch variants CancelSpotOrders / CancelPerpetualOrders, ClosePositions,
-   masterchef/estaking/commitment claims keyed by the signer) a non-owner is rejected with the state
-   unchanged. Proved here for [owner_scoped]: every handler that contains an owner comparison at all,
-   plus the hand-written list [owner_spec] (tradeshield update/cancel, leveragelp/perpetual close and
-   position updates, tokenomics claim). The batch variants build a new inner message in a loop, which
-   the skeleton extraction does not follow; they are covered by the correspondence run only. *)
+(* Owner-scoped messages, first form (handler-level "error and state unchanged"). Proved for [owner_scoped]: every
+   handler whose top-level skeleton contains an owner comparison, plus the hand-written list [owner_spec]
+   (tradeshield update/cancel, leveragelp/perpetual close and position updates, tokenomics claim). Kept under the
+   name _partial: it does not follow loops and inner messages. The batch variants and EVERY other handler are covered
+   by the second form below (the C17_owner_batch theorems), over the table Generated/OwnerFlow.v. *)
 Theorem C17_owner_guard_dominates_partial : forallb owner_guarded (filter owner_scoped handlers) = true.
 Proof. exact owner_guard_dominates. Qed.
 Print Assumptions C17_owner_guard_dominates_partial.
@@ -76,6 +75,72 @@ Theorem C17_owner_rejects_partial : forall h, In h handlers -> owner_scoped h = 
     exists c, run_handler owner h msg auth s chs = (Err c, s).
 Proof. exact owner_rejects. Qed.
 Print Assumptions C17_owner_rejects_partial.
+
+
+(* ---------------------------------------------------------------- owner-scoped messages, second form: ALL handlers.
+   Table Generated/OwnerFlow.v (regenerated on every run by `gotrans ownerflow`): for every method of every MsgServer
+   how the object it acts on is selected - through loops, same-package callees and inner messages. *)
+Module OF.
+Import Elys.Models.OwnerFlow Elys.Generated.OwnerFlow Elys.Proofs.OwnerFlowProofs.
+
+(* Every handler of the table is classified and its class agrees with its body: signer-keyed (A), id lookup +
+   owner comparison before any write (B), inner handler fed from the outer signer (C), not object-scoped (D),
+   governance-only (E); an unknown one (U) only if it is in the reviewed list Models/OwnerFlow.v [reviewed]
+   (4 permissionless triggers). Breaks when a comparison is dropped, an inner message gets its owner field from the
+   stored object, a signer-keyed lookup becomes an id lookup, or a new handler cannot be classified. *)
+Theorem C17_owner_batch_all_classified : forallb class_ok oflows = true.
+Proof. exact all_classified. Qed.
+Print Assumptions C17_owner_batch_all_classified.
+
+(* For every handler of the table that is not governance-only and not reviewed - single-object AND batch -, every
+   message, store, and behaviour of everything else: an object whose stored owner is not the signer is unchanged
+   when the handler returns, whatever it returns (for A: the signer's key addresses a different object; for B/C:
+   the comparison fails before any write; handler level, no reliance on the transaction being rolled back). *)
+Theorem C17_owner_batch_rejects : forall h, In h oflows -> of_class h <> CE -> is_reviewed h = false ->
+  forall (msg : message) (st : ostore) (chs : list ch) (i : nat) (o : obj),
+    st i = Some o -> o_owner o <> msg (of_signer h) ->
+    res_store (run_flow h msg st chs) i = Some o.
+Proof. exact owner_batch_rejects. Qed.
+Print Assumptions C17_owner_batch_rejects.
+
+(* For every class A/B/C handler that looks an object up by id (tradeshield update/cancel and the batch cancels):
+   if every object the run addresses belongs to somebody else, NOTHING is written at all - each item fails at the
+   comparison (the whole handler, or the item inside a loop) before any write. *)
+Theorem C17_owner_batch_compared_rejects : forall h, In h oflows -> owner_scoped_class h = true ->
+  has_step is_select_id (of_body h) = true ->
+  forall (msg : message) (st : ostore) (chs : list ch),
+    picks_foreign (msg (of_signer h)) st chs = true ->
+    res_store (run_flow h msg st chs) = st.
+Proof. exact owner_compared_rejects. Qed.
+Print Assumptions C17_owner_batch_compared_rejects.
+
+(* inner handlers named by class C bodies are themselves in the table, safe, class A-D; reviewed names exist *)
+Theorem C17_owner_batch_inner_present :
+  filter (fun n => negb (existsb (fun h => String.eqb (of_name h) n && flow_safe h &&
+                                           match of_class h with CA | CB | CC | CD => true | _ => false end) oflows))
+         (flat_map (fun h => match of_class h with CE | CU => [] | _ => inner_names (of_body h) end) oflows) = [] /\
+  filter (fun p => negb (existsb (fun h => String.eqb (of_name h) (fst p)) oflows)) reviewed = [].
+Proof. split; [exact inner_missing_none|exact reviewed_missing_none]. Qed.
+Print Assumptions C17_owner_batch_inner_present.
+
+(* non-vacuity: the table is populated and the reviewed list short; the three broken shapes are NOT accepted
+   (comparison dropped; inner owner field fed from the stored object; id lookup without comparison), and on
+   the first of them the adversary really overwrites the victim's object. *)
+Example C17_owner_batch_nonvacuous :
+  negb (Nat.leb (length (filter owner_scoped_class oflows)) 20) && negb (Nat.leb 6 (length reviewed)) = true /\
+  flow_safe (mkOF "m" "Cancel" "MsgCancel" "Owner" CB "" (<[OSelect KId "o" "k.Get"; OCheck; OCompare "o" "Owner"; OWrite WObj "k.Remove"]>)) = true /\
+  flow_safe (mkOF "m" "Cancel" "MsgCancel" "Owner" CB "" (<[OSelect KId "o" "k.Get"; OCheck; OWrite WObj "k.Remove"]>)) = false /\
+  flow_safe (mkOF "m" "CancelMany" "MsgCancelMany" "Creator" CC ""
+     (<[OLoop false (<[OInner "m.Cancel" "Owner" SrcState (<[OSelect KId "o" "k.Get"; OCompare "o" "Creator"; OWrite WObj "k.Remove"]>)]>)]>)) = false /\
+  flow_safe (mkOF "m" "Close" "MsgClose" "Creator" CA "" (<[OSelect KSigner "o" "k.GetPosition"; OWrite WObj "k.Set"]>)) = true /\
+  res_store (run_flow (mkOF "m" "Cancel" "MsgCancel" "Owner" CB "" (<[OSelect KId "o" "k.Get"; OCheck; OWrite WObj "k.Remove"]>))
+               (fun _ => "attacker") (fun i => if Nat.eqb i 1 then Some (mkObj "victim" 0) else None)
+               [CPick 1; CCont; CPut "o" None]) 1 = None /\
+  res_outcome (run_flow (mkOF "m" "Cancel" "MsgCancel" "Owner" CB "" (<[OSelect KId "o" "k.Get"; OCheck; OCompare "o" "Owner"; OWrite WObj "k.Remove"]>))
+               (fun _ => "attacker") (fun i => if Nat.eqb i 1 then Some (mkObj "victim" 0) else None)
+               [CPick 1; CCont; CPut "o" None]) = Fail Unauthorized.
+Proof. repeat split; vm_compute; reflexivity. Qed.
+End OF.
 
 (* The guard does not lock the authority out: its execution continues behind the guard. *)
 Theorem C17_authority_continues : forall h, strictly_guarded h = true ->
